@@ -51,8 +51,10 @@ func (d *Document) Include(res Resource) {
 		}
 	} else if col, ok := d.Data.(Collection); ok {
 		// Check Collection
+		// A collection that does not represent a particular type (like
+		// Resources) can hold resources of any type.
 		ctyp := col.GetType()
-		if ctyp.Name == res.GetType().Name {
+		if ctyp.Name == "" || ctyp.Name == res.GetType().Name {
 			for i := 0; i < col.Len(); i++ {
 				rkey := col.At(i).Get("id").(string) + " " + col.At(i).GetType().Name
 
